@@ -83,7 +83,46 @@ func updateOps(p *Prog, fn *FuncNode) map[string]map[string]bool {
 		}
 		out[f][op] = true
 	}
+	// conditional updates: an update statement that sits inside an if — except the else-branch of
+	// `if len(recv.F) == 0 { recv.F = arg.F } else { recv.F.Add(arg.F) }`, whose then-branch is the same sum
+	var stack []ast.Node
+	guarded := func() string {
+		for i := len(stack) - 1; i >= 0; i-- {
+			is, ok := stack[i].(*ast.IfStmt)
+			if !ok {
+				continue
+			}
+			// which branch are we in?
+			inElse := i+1 < len(stack) && is.Else != nil && stack[i+1] == ast.Node(is.Else)
+			if inElse && len(is.Body.List) == 1 {
+				if as, ok := is.Body.List[0].(*ast.AssignStmt); ok && as.Tok == token.ASSIGN && len(as.Lhs) == 1 {
+					if lf, ok := fieldOf(fn, as.Lhs[0], rv); ok {
+						if sel, ok := unparen(as.Rhs[0]).(*ast.SelectorExpr); ok && sel.Sel.Name == lf && fn.objOf(sel.X) != rv {
+							c := exprStr(is.Cond)
+							if strings.HasPrefix(c, "len(") && strings.HasSuffix(c, ") == 0") || strings.HasSuffix(c, " == nil") {
+								continue
+							}
+						}
+					}
+				}
+			}
+			return exprStr(is.Cond)
+		}
+		return ""
+	}
 	ast.Inspect(fn.Body, func(n ast.Node) bool {
+		if n == nil {
+			stack = stack[:len(stack)-1]
+			return false
+		}
+		stack = append(stack, n)
+		notePut := func(f, op string) {
+			put(f, op)
+			if g := guarded(); g != "" {
+				put(f, "only if "+g)
+			}
+		}
+		_ = notePut
 		switch x := n.(type) {
 		case *ast.AssignStmt:
 			if len(x.Lhs) != 1 || len(x.Rhs) != 1 {
@@ -95,17 +134,17 @@ func updateOps(p *Prog, fn *FuncNode) map[string]map[string]bool {
 			}
 			switch x.Tok {
 			case token.ADD_ASSIGN:
-				put(f, "+")
+				notePut(f, "+")
 			case token.SUB_ASSIGN:
-				put(f, "-")
+				notePut(f, "-")
 			case token.ASSIGN:
 				ast.Inspect(x.Rhs[0], func(y ast.Node) bool {
 					if be, ok := y.(*ast.BinaryExpr); ok && (be.Op == token.ADD || be.Op == token.SUB) {
 						if lf, ok := fieldOf(fn, be.X, rv); ok && lf == f {
 							if be.Op == token.ADD {
-								put(f, "+")
+								notePut(f, "+")
 							} else {
-								put(f, "-")
+								notePut(f, "-")
 							}
 						}
 					}
@@ -128,9 +167,9 @@ func updateOps(p *Prog, fn *FuncNode) map[string]map[string]bool {
 			if callee := fn.Callee(c); callee != nil && callee.Pkg() != nil && relPath(callee.Pkg().Path()) == cpumemTypes {
 				switch callee.Name() {
 				case "Add":
-					put(f, "+")
+					notePut(f, "+")
 				case "Sub":
-					put(f, "-")
+					notePut(f, "-")
 				}
 			}
 		}
@@ -154,7 +193,7 @@ func opsStr(m map[string]bool) string {
 func checkC08(p *Prog, r *Result, tier string) {
 	r.Technique = "field-coverage and mirrored-operator rules over the methods of resource/plugins/cpumem/types (type-checked AST), inverse-call rule over resource/cobalt, delta-shape rule in CalculateRealloc"
 	r.Explanation = "DC every DeepCopy of a cpumem bookkeeping type reads every field of its receiver, and a map/pointer/slice field is never placed into the copy as the receiver's own value (it is ranged over or copied by a call); " +
-		"MIR for every usage-relevant field (table in the evidence) Add updates it only with '+' and Sub only with '-', in the struct types and in the two map types; " +
+		"MIR for every usage-relevant field (table in the evidence) Add updates it only with '+' and Sub only with '-', unconditionally (no update sits under an if, except the else-branch of Add's `if len(x.F) == 0 { x.F = y.F }`), in the struct types and in the two map types; " +
 		"RB every RollbackX of the resource manager calls SetNodeResourceUsage with the same argument shape as X (nil requests, delta mode) and the opposite direction; APPLY the plugin applies every workload resource (or delta) it is handed to the node usage: the loop in calculateNodeResource converts each element field by field (CPU<-CPURequest, CPUMap<-CPUMap, Memory<-MemoryRequest, NUMAMemory<-NUMAMemory) and adds or subtracts it unconditionally, direction chosen only by incr; DELTA CalculateRealloc publishes as delta a DeepCopy of the new resource from which the parsed origin was subtracted. " +
 		"These are necessary for 'usage == sum of live workloads' and 'rollback restores usage exactly': a field missed by the copy or updated with the wrong sign makes the delta, and hence the usage, wrong for every history that touches it."
 	r.NotCovered = "the arithmetic over a whole history (values), rounding of CPU sums, aliasing through the heap (WorkloadResource.Add adopts the argument's NUMAMemory map when its own is empty: noted as an observation)"
@@ -238,7 +277,7 @@ func checkC08(p *Prog, r *Result, tier string) {
 			okA := len(ao[f]) == 1 && ao[f]["+"]
 			okS := len(so[f]) == 1 && so[f]["-"]
 			r.check(okA && okS, "MIR", key, p.pos(add.Decl), "Add: +, Sub: -",
-				fmt.Sprintf("Add updates it with {%s}, Sub with {%s}: the two are not inverse on this field, so release/rollback does not restore the usage", opsStr(ao[f]), opsStr(so[f])))
+				fmt.Sprintf("Add updates it with {%s}, Sub with {%s}: the two are not inverse on this field for every operand (wrong sign, or an update that is skipped under a condition), so a delta lacks entries and release/rollback does not restore the usage", opsStr(ao[f]), opsStr(so[f])))
 		}
 	}
 
